@@ -5,11 +5,11 @@ open Zc Zc.Shutdown
 def kindOf (s : String) : Option Kind :=
   match s with
   | "recv" => some .recv | "outq" => some .outq | "tc" => some .tc | "sched" => some .sched
-  | "cleanup" => some .cleanup | "task" => some .task | "close" => some .close
+  | "cleanup" => some .cleanup | "task" => some .task
   | _ => none
 
-/-- one observed block: kind, the flags read from the real objects when it started, whether close had
-already returned, and what it emitted -/
+/-- one observed non-close block: kind, the flags read from the real objects when it started, whether a close
+had already returned, and what it emitted -/
 def opParse : Tok String := do
   let k ← Tok.next
   let done ← Tok.bool; let tclosed ← Tok.bool; let rx ← Tok.bool; let cleanup ← Tok.bool; let after ← Tok.bool
@@ -24,17 +24,56 @@ def c17run (toks : List String) : String :=
   | some (vs, _) => ";".intercalate vs
   | none => "bad-op"
 
-/-- `c17quiet <done> <tclosed> <cleanup>`: is a host with these flags, after close returned, `Closed`? (the
+/-- `c17closed <done> <tclosed> <cleanup>`: is a host with these flags, after a close returned, `Closed`? (the
 hypothesis of `C17_quiet`, decided by the model) -/
 def c17closed (toks : List String) : String :=
   match (do let d ← Tok.bool; let t ← Tok.bool; let c ← Tok.bool; Tok.done; pure (d, t, c) : Tok (Bool × Bool × Bool)).run toks with
   | some ((d, t, c), _) => if decide (Closed (hostOfFlags d t c true 0)) then "1" else "0"
   | none => "bad-op"
 
+def blockParse : Tok Block := do
+  let k ← Tok.next
+  let i ← Tok.nat
+  let a ← Tok.bool
+  match k with
+  | "call" => pure (.closeCall a)
+  | "wake" => pure (.closeWake i a)
+  | "gb" => pure (.closeGoodbye i)
+  | "md" => pure (.closeMarkDone i)
+  | "sd" => pure (.closeShutdown i)
+  | "fin" => pure (.closeFinish i)
+  | "ab" => pure (.closeAbort i)
+  | "start" => pure .startUp
+  | _ => failure
+
+def stepParse : Tok CloseStepObs := do
+  let bs ← Tok.list blockParse
+  let reg ← Tok.optNat
+  let gb ← Tok.nat
+  let r ← Tok.next
+  let raised ← (match r with
+    | "-" => pure none | "nr" => pure (some Exc.notRunning) | "ca" => pure (some Exc.cancelled) | _ => failure : Tok (Option Exc))
+  let d ← Tok.bool; let t ← Tok.bool; let c ← Tok.bool
+  pure ⟨bs, reg, gb, raised, ⟨d, t, c⟩⟩
+
+/-- `c17closes <done> <tclosed> <cleanup> <running> <n> {step}`: the interleaved steps of all close calls of one run,
+replayed through `Shutdown.run` (see `replayCloses`) → one verdict per step -/
+def c17closes (toks : List String) : String :=
+  match (do
+      let d ← Tok.bool; let t ← Tok.bool; let c ← Tok.bool; let r ← Tok.bool
+      let steps ← Tok.list stepParse; Tok.done
+      pure (d, t, c, r, steps) : Tok (Bool × Bool × Bool × Bool × List CloseStepObs)).run toks with
+  | some ((d, t, c, r, steps), _) =>
+    let h : Host := { hostOfFlags d t c false 1 with running := r, browsers := [⟨true, false, true, true⟩, ⟨false, false, true, true⟩] }
+    let vs := replayCloses h steps
+    if vs.isEmpty then "-" else ";".intercalate vs
+  | none => "bad-op"
+
 def dispatch (cmd : String) (rest : List String) : Option String :=
   match cmd with
   | "c17run" => some (c17run rest)
   | "c17closed" => some (c17closed rest)
+  | "c17closes" => some (c17closes rest)
   | _ => none
 
 end Zc.Driver.C17
